@@ -23,7 +23,7 @@ import os
 import sys
 import types
 
-from ..core import Sub, fail, enc, jkey
+from ..core import Sub, fail, enc, jkey, scale
 from .. import heapfp
 
 BOUNDS = {
@@ -688,4 +688,43 @@ class ModuleState(Sub):
         return None
 
 
-SUBS = [Histories(), Closure(), Retention(), Immutable(), ModuleState()]
+
+SCALE_FORMULAS = ['#N/A', '1+', 'nosuchvar+A1', 'A1*B2+(', '1/0', 'SUM(A1:B2)+va', 'FBOOM(1)', 'FN(va)&A1', '"abc', 'NOSUCHFN(A1)']
+
+
+class EvaluationScale(Sub):
+    name = 'c02.scale'
+    rule = ('size ladder of the number n of evaluations on ONE parser: the same formula n times, for each of 10 '
+            'residue-leaving formulas (error literal, syntax errors, unknown names after a cell was read, raising function, '
+            'ordinary ones) and for their round-robin mixture, then every probe formula: outcomes equal those on a fresh parser '
+            'with the same bindings (a counter, a bounded cache or a table that fills up after N evaluations shows); '
+            'non-trivial = all')
+    min_cases = 40
+    min_nontrivial = 40
+
+    def cases(self, tier, unit):
+        for n in scale(tier):
+            for k in list(range(len(SCALE_FORMULAS))) + ['mix']:
+                yield [n, k]
+
+    def check(self, env, case):
+        n, k = case
+        env.nt()
+        with seams() as seam_ok:
+            ref = World(env)
+            want = [norm(env, ref.parse(FORMULAS[pi]), seam_ok, FORMULAS[pi]) for pi in range(NPROBE)]
+            w = World(env)
+            for i in range(n):
+                f = SCALE_FORMULAS[i % len(SCALE_FORMULAS)] if k == 'mix' else SCALE_FORMULAS[k]
+                w.parse(f)
+            env.evals += n + 2 * NPROBE
+            for pi in range(NPROBE):
+                got = norm(env, w.parse(FORMULAS[pi]), seam_ok, FORMULAS[pi])
+                if got != want[pi]:
+                    return fail('after %d evaluations of %s on one parser the probe %r gives %r; on a fresh parser with the same '
+                                'bindings %r' % (n, 'the 10 formulas in turn' if k == 'mix' else repr(SCALE_FORMULAS[k]), FORMULAS[pi], got,
+                                                 want[pi]), want[pi], got)
+        return None
+
+
+SUBS = [Histories(), Closure(), Retention(), Immutable(), ModuleState(), EvaluationScale()]
